@@ -430,10 +430,10 @@ type world struct {
 	bs  *store.BlockStore
 	sdb dbm.DB
 	// block oracle
-	saved   map[int64]*savedBlock
-	dirty   map[int64]bool // partially written or raw-deleted heights: no verdict
-	offBlk  bool           // a block with height < 1 was handed to the store: outside the statement's domain
-	lastOK  int64          // height of the last block saved normally (0 = none)
+	saved  map[int64]*savedBlock
+	dirty  map[int64]bool // partially written or raw-deleted heights: no verdict
+	offBlk bool           // a block with height < 1 was handed to the store: outside the statement's domain
+	lastOK int64          // height of the last block saved normally (0 = none)
 	// state oracle
 	cons     bool // the SaveState history so far is a chain
 	started  bool
@@ -516,8 +516,6 @@ func (w *world) heightVerdict(before int64) string {
 	}
 	return "ok"
 }
-
-func eqOrNil(got []byte, want []byte) bool { return bytes.Equal(got, want) }
 
 // ---------------------------------------------------------------- state oracle: is the history a chain?
 
